@@ -851,6 +851,10 @@ def check_C10(rep, fl):
     check_handle_item_sync(rep, fl)
     check_wait_release(rep, fl)
     check_wait_fn(rep, fl)
+    # "fully applied": what the policy evicted for an insert has left the store by the time the insert is done with,
+    # whether the newcomer was admitted in the end or not (an entry the policy no longer charges but lookups still find
+    # is an insert half applied)
+    check_handle_item_pairing(rep, fl, rule="R10.2", collisions=False, only_sites=("victims inspected on every path", "victim => try_remove(victim.key, 0)"))
     # wait() on a closed cache returns at once: the closed test of wait (the other operations' tests are C12's)
     props_store.keep_sites(rep, fl, check_closed_first, ("*",), only_ops=("wait",))
     check_worker_exit(rep, fl)
